@@ -3,13 +3,14 @@
 (* Union of all codec modules: one expectation function Exp(op, a) used by *)
 (* both conformance directions, one law predicate and the bounded grids.   *)
 (***************************************************************************)
-EXTENDS Pus1, Cfdp, Cds
+EXTENDS Pus1, Cfdp, Cds, ByteField
 
 Exp(op, a) == IF op \in SpOps THEN SpExp(op, a)
               ELSE IF op \in PusOps THEN PusExp(op, a)
               ELSE IF op \in Pus1Ops THEN Pus1Exp(op, a)
               ELSE IF op \in CfdpOps THEN CfdpExp(op, a)
               ELSE IF op \in CdsOps THEN CdsExp(op, a)
+              ELSE IF op \in BfOps THEN BfExp(op, a)
               ELSE [unknown |-> op]
 
 Law(op, a) == IF op \in SpOps THEN SpLaw(op, a)
@@ -17,6 +18,7 @@ Law(op, a) == IF op \in SpOps THEN SpLaw(op, a)
               ELSE IF op \in Pus1Ops THEN Pus1Law(op, a)
               ELSE IF op \in CfdpOps THEN CfdpLaw(op, a)
               ELSE IF op \in CdsOps THEN CdsLaw(op, a)
+              ELSE IF op \in BfOps THEN BfLaw(op, a)
               ELSE TRUE
 
 CONSTANT Tier
@@ -31,6 +33,7 @@ NParts(area) == CASE area = "cfdphdr" -> CfdpHdrNParts
                   [] area = "tm" -> TmNParts
                   [] area = "pus1" -> Pus1NParts
                   [] area = "cds" -> CdsNParts
+                  [] area = "bf" -> BfNParts
 
 GridPart(area, i) == CASE area = "cfdphdr" -> CfdpHdrGridPart(i, Tier)
                        [] area = "tlv" -> TlvGridPart(i)
@@ -42,4 +45,5 @@ GridPart(area, i) == CASE area = "cfdphdr" -> CfdpHdrGridPart(i, Tier)
                        [] area = "tm" -> TmGridPart(i)
                        [] area = "pus1" -> Pus1GridPart(i)
                        [] area = "cds" -> CdsGridPart(i)
+                       [] area = "bf" -> BfGridPart(i)
 =============================================================================
